@@ -27,16 +27,23 @@ RPCS = [('Main', 'GetA'), ('Main', 'GetB'), ('Main', 'ListItems'), ('Main', 'Run
 
 
 def graph():
+    kinds = file('acme/sel/v1/kinds.proto', P, enums=[enum('Shade', 'SHADE_UNSPECIFIED', 'DARK'),
+                                                     enum('UnusedShade', 'UNUSED_SHADE_UNSPECIFIED', 'US1')])
     items = file('acme/sel/v1/items.proto', P, messages=[
         message('PagedItem', [field('name', 1, 'string'), field('tone', 2, 'enum:' + Q('ItemTone'))]),
+        message('Widget', [field('name', 1, 'string'), field('part', 2, Q('WidgetPart'))], resource=(f'{DOM}/Widget', 'widgets/{widget}')),
+        message('WidgetPart', [field('p', 1, 'string')]),
+        message('Gizmo', [field('name', 1, 'string')], resource=(f'{DOM}/Gizmo', 'widgets/{widget}/gizmos/{gizmo}')),
         message('OnlyHere', [field('x', 1, 'string')])],
         enums=[enum('ItemTone', 'ITEM_TONE_UNSPECIFIED', 'LOUD'), enum('UnusedEnum', 'UNUSED_ENUM_UNSPECIFIED', 'U1')])
     mf, me = map_field(Q('Forest'), 'by_name', 2, 'string', Q('Tree'))
+    parts_f, parts_e = map_field(Q('A'), 'parts', 5, 'string', Q('Part'))
     msgs = [
         message('Shared', [field('s', 1, 'string'), field('deep', 2, Q('SharedDeep'))]),
         message('SharedDeep', [field('d', 1, 'enum:' + Q('DeepEnum'))]),
-        message('A', [field('shared', 1, Q('Shared')), field('inner', 2, Q('A.Inner')), field('name', 3, 'string')],
-                nested=[message('Inner', [field('mode', 1, 'enum:' + Q('A.Inner.Mode')), field('v', 2, 'string')],
+        message('A', [field('shared', 1, Q('Shared')), field('inner', 2, Q('A.Inner')), field('name', 3, 'string'),
+                      field('shade', 4, 'enum:' + Q('Shade')), parts_f],
+                nested=[parts_e, message('Inner', [field('mode', 1, 'enum:' + Q('A.Inner.Mode')), field('v', 2, 'string')],
                                 enums=[enum('Mode', 'MODE_UNSPECIFIED', 'FAST')])]),
         message('GetARequest', [field('name', 1, 'string')]),
         message('B', [field('shared', 1, Q('Shared')), field('borrowed', 2, Q('A.Inner')), field('only_b', 3, Q('OnlyB'))]),
@@ -51,10 +58,8 @@ def graph():
         message('GetTreeRequest', [field('name', 1, 'string')]),
         message('Tree', [field('children', 1, Q('Tree'), repeated=True), field('peer', 2, Q('Forest')), field('leaf', 3, 'string')]),
         message('Forest', [field('trees', 1, Q('Tree'), repeated=True), mf], nested=[me]),
+        message('Part', [field('maker', 1, Q('Maker'))]), message('Maker', [field('m', 1, 'string')]),
         message('TouchRequest', [field('name', 1, 'string', ref=f'{DOM}/Widget'), field('parent', 2, 'string', child_ref=f'{DOM}/Gizmo')]),
-        message('Widget', [field('name', 1, 'string'), field('part', 2, Q('WidgetPart'))], resource=(f'{DOM}/Widget', 'widgets/{widget}')),
-        message('WidgetPart', [field('p', 1, 'string')]),
-        message('Gizmo', [field('name', 1, 'string')], resource=(f'{DOM}/Gizmo', 'widgets/{widget}/gizmos/{gizmo}')),
         message('Orphan', [field('o', 1, 'string')], nested=[message('OrphanInner', [field('i', 1, 'string')])]),
     ]
     enums = [enum('DeepEnum', 'DEEP_ENUM_UNSPECIFIED', 'D1'), enum('OrphanEnum', 'ORPHAN_ENUM_UNSPECIFIED', 'O1')]
@@ -68,9 +73,10 @@ def graph():
     side = service('Side', [method('Touch', Q('TouchRequest'), EMPTY, http=('post', '/v1/{name=widgets/*}:touch', '*'))])
     svc = file('acme/sel/v1/svc.proto', P, messages=msgs, enums=enums, services=[main, side])
     std = desc.std_dep_names()
+    kinds.dependency.extend(std)
     items.dependency.extend(std)
-    svc.dependency.extend(std + [items.name])
-    return [items, svc]
+    svc.dependency.extend(std + [items.name, kinds.name])
+    return [kinds, items, svc]
 
 
 def yaml_for(methods, internal, version=P, extra=''):
